@@ -263,7 +263,8 @@ impl<'a> CompilerState<'a> {
             if c == '\n' {
                 line_number += 1;
             }
-            char_number += 1;
+            // pest locations are byte offsets
+            char_number += c.len_utf8();
         }
         let included_in = self.mapped_lines[line_number]
             .2
@@ -287,7 +288,8 @@ impl<'a> CompilerState<'a> {
             if c == '\n' {
                 line_number += 1;
             }
-            char_number += 1;
+            // pest locations are byte offsets
+            char_number += c.len_utf8();
         }
         let included_in = self.mapped_lines[line_number]
             .2
@@ -311,7 +313,8 @@ impl<'a> CompilerState<'a> {
             if c == '\n' {
                 line_number += 1;
             }
-            char_number += 1;
+            // pest locations are byte offsets
+            char_number += c.len_utf8();
         }
         let included_in = self.mapped_lines[line_number]
             .2
